@@ -200,6 +200,37 @@ example : (((Iter.mk' [([1], [1]), ([3], [3]), ([5], [5])] [] (some [5]) true).s
     ∧ (((Iter.mk' [([1], [1]), ([3], [3]), ([5], [5])] [] (some [5]) false).seek [2]).1.cur = some ([3], [3])) := by
   decide
 
+/-! ### small facts about the helpers of db.go / go_mem_db.go -/
+
+/-- `itBase.checkKey` never rejects what the range-restricted goleveldb/memdb iterator delivers:
+for `goLevelDBIt`, `Valid()` is the underlying `Valid()` (the inclusive `key ≤ end` test on top of
+the exclusive limit is redundant there). -/
+theorem valid_is_underlying_valid {m : Map} (hs : Sorted m) (start : Bytes) (end_ : Option Bytes) (rev : Bool)
+    (steps : List IStep) :
+    let it := steps.foldl (fun (i : Iter) st => (i.step st).1) (Iter.mk' m start end_ rev)
+    it.valid = it.uValid :=
+  Iter.valid_eq_uValid (Iter.steps_wf (Iter.wf_mk' hs start end_ rev) steps)
+
+/-- the `types.EmptyValue` sentinel as `end` means "no upper bound". -/
+theorem emptyValue_unbounded {m : Map} (hs : Sorted m) (start : Bytes) :
+    effEnd start (some emptyValue) = none
+    ∧ (Iter.mk' m start (some emptyValue) false).scan = m.filter (fun e => ble start e.1) := by
+  have h1 : effEnd start (some emptyValue) = none := by simp [effEnd]
+  refine ⟨h1, ?_⟩
+  rw [iter_forward hs, h1]
+  unfold range
+  apply List.filter_congr
+  intro e _; simp [inRange, belowUpper]
+
+/-- `memBatch`: `Set(k, empty)` stores an empty value (the key is present), only `Delete(k)` removes
+the key — in whatever order they meet in one batch, the last one wins. -/
+theorem batch_empty_value_is_stored {m : Map} (hs : Sorted m) (k : Bytes) :
+    get (applyBatch m [.set k []]) k = some []
+    ∧ get (applyBatch m [.del k]) k = none
+    ∧ get (applyBatch m [.del k, .set k []]) k = some []
+    ∧ get (applyBatch m [.set k [], .del k]) k = none := by
+  refine ⟨?_, ?_, ?_, ?_⟩ <;> (rw [batch_in_order hs]; simp [lastWrite])
+
 /-! ### GoBadgerDB iterator (repaired code, /repo commits 0f6664f, 406d120, 5ca8d51)
 
 `BIter` mirrors `goBadgerDBIt` as repaired: the constructor leaves the iterator unpositioned
